@@ -11,8 +11,9 @@ Mirrors, as they are (quirks included):
                                             PackDictEnc :1576-1614, GetCvalFromRec :734-865
           pkg/segment/writer/segstore.go    WipBlock.adjustEarliestLatestTimes :1084, encodeTimestamps :1309-1366
   reader  pkg/segment/reader/segread/segreader/segreader.go
-                                            unpackRawCsg :603 (state reset), ReadRecord :412, iterateNextRecord :454,
-                                            getCurrentRecordLength :477 (incl. the consistent-length shortcut),
+                                            unpackRawCsg (state reset; since 42015c5 the consistent length is verified against the first record),
+                                            ReadRecord, iterateNextRecord, getCurrentRecordLength / getCurrentRecordLengthFromEncoding
+                                            (incl. the consistent-length shortcut; out-of-range = ErrBadEncoding since 42015c5),
                                             ReadDictEnc :541, deGetRec :721
           pkg/segment/reader/segread/timereader.go  convertRawRecordsToTimestamps :261
 
@@ -138,8 +139,22 @@ def fixedLen (t : Nat) : Option Nat :=
   else if t = tBackfill then some 1
   else none
 
-/-- `getCurrentRecordLength` on the bytes from the current offset on (no consistent length known) -/
+/-- `getCurrentRecordLengthFromEncoding` on the bytes from the current offset on (no consistent length known).
+Since fix 42015c5 an offset at the end of the buffer and a variable-length record without its two length bytes are
+`ErrBadEncoding` (they were index / slice panics before: `recLenOld`). -/
 def recLen : Bytes → Res Nat
+  | [] => .err "bad-encoding"                      -- currOffset >= len(currRawBlockBuffer)
+  | t :: rest =>
+    if t = tStr ∨ t = tDictArr ∨ t = tRawJson then
+      match rdN 2 rest with
+      | some (n, _) => .ok (3 + n)
+      | none => .err "bad-encoding"                -- currOffset+3 > len(currRawBlockBuffer)
+    else match fixedLen t with
+      | some l => .ok l
+      | none => .err "bad-encoding"
+
+/-- `getCurrentRecordLength` BEFORE fix 42015c5: no bounds checks -/
+def recLenOld : Bytes → Res Nat
   | [] => .panic                                   -- currRawBlockBuffer[currOffset] out of range
   | t :: rest =>
     if t = tStr ∨ t = tDictArr ∨ t = tRawJson then
@@ -252,9 +267,29 @@ deriving Repr, DecidableEq
 def curRecLen (buf : Bytes) (constLen off : Nat) : Res Nat :=
   if constLen > 0 ∧ constLen ≠ inconsistent then .ok constLen else recLen (buf.drop off)
 
-/-- `unpackRawCsg` after decompression: offset 0, first record's length, record number 0 -/
+/-- the consistent length that `unpackRawCsg` keeps (fix 42015c5): a usable length from the segment meta is compared
+with the length that the block's FIRST record has by its own encoding; when they differ (or that record cannot be
+measured) the reader forgets it and reads the lengths from the records (`INCONSISTENT_CVAL_SIZE`) -/
+def checkedLen (buf : Bytes) (constLen : Nat) : Nat :=
+  if constLen > 0 ∧ constLen ≠ inconsistent then
+    match recLen buf with
+    | .ok l => if l = constLen then constLen else inconsistent
+    | _ => inconsistent
+  else constLen
+
+/-- `unpackRawCsg` after decompression: the consistent length is checked against the first record, then
+offset 0, first record's length, record number 0 -/
 def Rd.init (buf : Bytes) (constLen : Nat) : Res Rd :=
-  match curRecLen buf constLen 0 with
+  let c := checkedLen buf constLen
+  match curRecLen buf c 0 with
+  | .ok l => .ok { buf := buf, constLen := c, recNum := 0, off := 0, recLen := l }
+  | .err _ => .err "reset-reader"
+  | .panic => .panic
+
+/-- `unpackRawCsg` BEFORE fix 42015c5: the length from the segment meta was used as it came, and the length of
+the first record was taken without bounds checks -/
+def Rd.initOld (buf : Bytes) (constLen : Nat) : Res Rd :=
+  match (if constLen > 0 ∧ constLen ≠ inconsistent then .ok constLen else recLenOld buf) with
   | .ok l => .ok { buf := buf, constLen := constLen, recNum := 0, off := 0, recLen := l }
   | .err _ => .err "reset-reader"
   | .panic => .panic
@@ -311,6 +346,14 @@ def seek (buf : Bytes) (i : Nat) : Option Bytes :=
 /-- record `i` of a block by the consistent-length shortcut -/
 def seekConst (len : Nat) (buf : Bytes) (i : Nat) : Option Bytes :=
   match Rd.init buf len with
+  | .ok st => match (st.readRecord i).2 with
+    | .ok r => some r
+    | _ => none
+  | _ => none
+
+/-- the shortcut BEFORE fix 42015c5 (the hint was not checked against the first record) -/
+def seekConstOld (len : Nat) (buf : Bytes) (i : Nat) : Option Bytes :=
+  match Rd.initOld buf len with
   | .ok st => match (st.readRecord i).2 with
     | .ok r => some r
     | _ => none
